@@ -37,6 +37,12 @@ func init() {
 			{"replica/partition.go", "partition", "IsExpire", "isExpireCalls"},
 			{"replica/wal.go", "writeAheadLog", "destroy", "walDestroyCalls"},
 			{"replica/wal.go", "writeAheadLog", "recovery", "walRecoveryCalls"},
+			{"tsdb/engine.go", "engine", "Close", "engineCloseCalls"},
+			{"tsdb/database.go", "database", "Close", "databaseCloseCalls"},
+			{"tsdb/shard.go", "shard", "Close", "shardCloseCalls"},
+			{"tsdb/segment.go", "segment", "Close", "segmentCloseCalls"},
+			{"tsdb/interval_segment.go", "intervalSegment", "Close", "intervalSegmentCloseCalls"},
+			{"tsdb/shard.go", "shard", "FlushIndex", "shardFlushIndexCalls"},
 		}
 		files := map[string]*ast.File{}
 		get := func(rel string) (*ast.File, error) {
@@ -95,6 +101,31 @@ func init() {
 			c07CallArgs(FindFunc(lrf, "localReplicator", "Replica"), "ValidateSequence"),
 			c07CallArgs(FindFunc(lrf, "localReplicator", "Replica"), "CommitSequence")...),
 			c07CallArgs(FindFunc(lrf, "", "NewLocalReplicator"), "AckSequence")...)))
+		// error propagation of the flush steps: what happens on the error branch of each `if err ... != nil`
+		shf, _ := get("tsdb/shard.go")
+		dbf, _ := get("tsdb/database.go")
+		fcf, _ := get("tsdb/data_flush_checker.go")
+		for _, g := range []struct {
+			f          *ast.File
+			recv, name string
+			lean       string
+		}{
+			{shf, "shard", "FlushIndex", "shardFlushIndexGuards"},
+			{shf, "shard", "flushIndex", "shardFlushIndexInnerGuards"},
+			{fcf, "dataFlushChecker", "flushShard", "flushShardGuards"},
+			{fcf, "dataFlushChecker", "doFlush", "doFlushGuards"},
+			{dbf, "database", "FlushMeta", "databaseFlushMetaGuards"},
+			{dbf, "database", "flushMeta", "databaseFlushMetaInnerGuards"},
+			{dbf, "database", "Close", "databaseCloseGuards"},
+			{shf, "shard", "Close", "shardCloseGuards"},
+		} {
+			fd := FindFunc(g.f, g.recv, g.name)
+			if fd == nil {
+				return "", fmt.Errorf("func %s.%s not found", g.recv, g.name)
+			}
+			fmt.Fprintf(&sb, "/-- %s.%s: `if err (:)= X; err != nil` statements: X, how err is assigned, and whether the error branch ends by returning it -/\ndef %s : List String := %s\n\n",
+				g.recv, g.name, g.lean, LeanStrList(c07ErrGuards(fd)))
+		}
 		// replicator.IgnoreMessage: when does it acknowledge an unusable entry?
 		_, rf, err := ParseFile(repo, "replica/replicator.go")
 		if err != nil {
@@ -309,6 +340,70 @@ func c07KeyValues(fd *ast.FuncDecl, key string) []string {
 				out = append(out, c07Text(kv.Value))
 			}
 		}
+		return true
+	})
+	return out
+}
+
+// c07ErrGuards lists, in source order, the statements `if err (:)= X; err != nil { ... }` of fd as
+// "X|tok|verdict": X = the called function (or the expression), tok = "=" or ":=", verdict =
+// "abort" when the error branch ends with a return that carries the error (`return err`,
+// `return ..., err`, or a bare return after `err = X` into a named result), "continue" otherwise
+// (the error is logged / dropped and the function goes on), "return-nil" when the branch returns
+// without the error.
+func c07ErrGuards(fd *ast.FuncDecl) []string {
+	var out []string
+	if fd == nil || fd.Body == nil {
+		return out
+	}
+	named := false
+	if fd.Type.Results != nil {
+		for _, r := range fd.Type.Results.List {
+			for _, n := range r.Names {
+				if n.Name == "err" {
+					named = true
+				}
+			}
+		}
+	}
+	ast.Inspect(fd.Body, func(n ast.Node) bool {
+		is, ok := n.(*ast.IfStmt)
+		if !ok || is.Init == nil {
+			return true
+		}
+		as, ok := is.Init.(*ast.AssignStmt)
+		if !ok || len(as.Rhs) != 1 || len(as.Lhs) == 0 {
+			return true
+		}
+		id, ok := as.Lhs[len(as.Lhs)-1].(*ast.Ident)
+		if !ok || id.Name != "err" {
+			return true
+		}
+		if c := c07Text(is.Cond); c != "err != nil" {
+			return true
+		}
+		x := c07Text(as.Rhs[0])
+		if c, ok := as.Rhs[0].(*ast.CallExpr); ok {
+			x = c07Text(c.Fun)
+		}
+		verdict := "continue"
+		if k := len(is.Body.List); k > 0 {
+			if r, ok := is.Body.List[k-1].(*ast.ReturnStmt); ok {
+				verdict = "return-nil"
+				if len(r.Results) == 0 && named && as.Tok == token.ASSIGN {
+					verdict = "abort"
+				}
+				if len(r.Results) == 0 && fd.Type.Results == nil {
+					verdict = "abort" // a function without results: the bare return ends it
+				}
+				if k := len(r.Results); k > 0 {
+					if rid, ok := r.Results[k-1].(*ast.Ident); ok && rid.Name == "err" {
+						verdict = "abort"
+					}
+				}
+			}
+		}
+		out = append(out, x+"|"+as.Tok.String()+"|"+verdict)
 		return true
 	})
 	return out
